@@ -58,6 +58,10 @@ CHECKS = {
             "The pool is a stub (in-process workers; pickling preserved, separate module globals and real scheduling not). " + COMMON_NOTE,
             "deterministic simulation: simulated process pool with planned schedules, sequential analysis as reference model",
             "DESIGN.md section 4, C15"),
+    "C20": ("Narrow claim: seeded histories with save/load points through every format and stream flavour; the loaded replica is compared with the live net at once and then follows the same subsequent operations (every later calculation must agree); saves whose stream raises ENOSPC/EIO from write or close must raise, leave the live net untouched and be followed by a clean round trip. The value-generation half of the property (odd strings, tiny floats, nullable dtypes) is input generation and is not claimed.",
+            "Excel/SQLite: element tables only, printed values; null-likes equal; JSON floats 1e-14. Stream fault dimension is thin by nature (json/pickle need full reads/writes by contract). " + COMMON_NOTE,
+            "deterministic simulation: snapshot/restore inside seeded histories with a replica-divergence oracle; simulated streams and wrapped open() with injected write/close errors",
+            "DESIGN.md section 4, C20"),
     "C22": ("Seeded search over histories of creation and toolbox edits (drop_*, fuse_buses, select_subnet, merge_nets, reindex_*, create_continuous_*_index, replace_*) on nets that carry one reference of every kind; a referential-integrity invariant (bus references, switch targets, measurements, costs, group members incl. reference columns, controller targets, characteristic ids, result-table indices) is evaluated after every edit that returns.",
             "History search with a step-wise invariant, no fault dimension (the property speaks of edits that complete; rejected edits are rolled back). Open known findings: controller targets after replace_* and drop_elements_at_buses. " + COMMON_NOTE,
             "deterministic simulation (history dimension only): seeded edit sequences with a referential-integrity invariant after every step",
